@@ -104,21 +104,6 @@ theorem sink_stateless (env : Env) (s : St) (evs : List Ev) (h : Quiet s evs) :
     ((run env s evs).cfg, (run env s evs).dyn.lite) = liteRun env s.cfg s.dyn.lite evs :=
   run_lite env evs s h
 
-theorem quiet_addIgnore (f : FileId) (L : Int) (C : List CodeName) (s : St) (evs : List Ev) (h : Quiet s evs) :
-    Quiet { cfg := s.cfg.ext f L C, dyn := s.dyn } (evs.map (addIgnoreEv f L C)) := by
-  obtain ⟨h1, h2, h3⟩ := h
-  refine ⟨h1, ?_, ?_⟩
-  · intro e he
-    obtain ⟨e0, he0, rfl⟩ := List.mem_map.1 he
-    have := h2 e0 he0
-    cases e0 <;> simpa [addIgnoreEv, evQuiet] using this
-  · have : (evs.map (addIgnoreEv f L C)).flatMap onceMsg = evs.flatMap onceMsg := by
-      rw [List.flatMap_map]
-      congr 1
-      funext e
-      cases e <;> rfl
-    rw [this]; exact h3
-
 /-! ## `# type: ignore` is exact -/
 
 /-- **`ignore_exact`**.  Take any stream `evs` (satisfying `Quiet`) and the same stream for the program with
@@ -150,20 +135,6 @@ theorem ignore_exact (env : Env) (f : FileId) (L : Int) (C : List CodeName) (s :
   constructor
   · rw [hcfg]; exact congrArg Prod.fst h1
   · exact congrArg Prod.snd h1
-
-theorem firstNew_spec (p : Int → Bool) (hit : Bool) (L : Int) : ∀ span : List Int,
-    firstNew p hit L span = true → hit = true ∧ L ∈ span := by
-  intro span
-  induction span with
-  | nil => intro h; simp [firstNew] at h
-  | cons l ls ih =>
-    intro h
-    simp only [firstNew] at h
-    split at h
-    · cases h
-    · split at h
-      · rename_i hl; exact ⟨hl.2, by simp [hl.1]⟩
-      · obtain ⟨a, b⟩ := ih h; exact ⟨a, by simp [b]⟩
 
 /-- **only matching errors are removed**: a report whose fate changes is for that file, is not a blocker,
     has `L` in its origin span, and its code is disabled or matches the tags: bare ignore, the code itself, or
